@@ -56,6 +56,11 @@ def genb(rng, prop, job):
 
 def gen(rng, prop, job):
     from . import m5_threads
+    if job.get("hook"):
+        # a shutdown hook (`MAIN_THREAD.please_stop.then(...)`) that starts one more thread under the main thread: monitors only
+        sc = m5_threads.gen_scenario(rng, prop)
+        sc["hook"] = ([["wait_stop"]] if rng.random() < 0.8 else []) + [["timed", rng.choice([0.5, 0.25])], ["ret", 1]]
+        return sc
     return m5_threads.gen_scenario(rng, prop)
 
 
@@ -64,6 +69,9 @@ def make_jobs(prop, tier, seed):
     if prop == "C12":
         for j in range(4 if tier == "quick" else 24):
             jobs.append({"kind": "explore", "side": "batch", "prop": prop, "seed": seed * 15485863 + j, "scenarios": 8, "schedules": 4, "no_driver": True})
+    if prop == "C11":
+        for j in range(2 if tier == "quick" else 12):
+            jobs.append({"kind": "explore", "hook": True, "prop": prop, "seed": seed * 86028157 + j, "scenarios": 8, "schedules": 4, "no_driver": True})
     if tier == "thorough":
         for j in range(24):
             jobs.append({"kind": "pbound", "prop": prop, "seed": seed * 104729 + j, "k": 2, "budget": 1200})
